@@ -1,5 +1,5 @@
 From Coq Require Import ExtrOcamlBasic.
-From HV Require Import Base.Res Base.Str Model.Query Model.QueryParse.
+From HV Require Import Base.Res Base.Str Model.Query Model.QueryParse Model.QueryEdit.
 Extraction Language OCaml.
 Extraction "../ocaml/build/c15_model.ml"
-  force_types compile search matches handle tokenize balanced_groupers.
+  force_types compile search matches handle tokenize balanced_groupers apply_edit obj_search run_step.
